@@ -340,7 +340,14 @@ func leafValue(node parquet.Node, v reflect.Value, r, d int) LV {
 					unit = int64(ts.Unit.Value.Duration())
 				}
 			}
-			lv.I = floorDiv(t.UnixNano(), unit)
+			switch unit {
+			case int64(time.Millisecond):
+				lv.I = t.UnixMilli() // reaches beyond what int64 nanoseconds hold
+			case int64(time.Microsecond):
+				lv.I = t.UnixMicro()
+			default:
+				lv.I = floorDiv(t.UnixNano(), unit)
+			}
 		}
 		return lv
 	}
